@@ -50,7 +50,7 @@ CHECKS = {
          "GreedyParallel and Termination hold on spec/Schedule.tla; on real runs every pair of tasks that greedy in-order grouping by declared access puts in one group must be forked inside one join region (excused only when exactly one of the two was started early with the previous stage), and every run on pools of 1/2/4/8 threads and in the single-threaded deterministic shim must reach the end of run_schedule.",
          "Greedy grouping yardstick = Access!StageOf; hang watchdog 600 s per bin.", "6 C12"),
  "C17": ("fault_enumeration", "panic injected at every call-back position enumerated from a dry run; ledger and allocator trace validated by TLC against PanicSafe (spec/TracePanic.tla)",
-         "For 24 operations that invoke user code and every position k of every call-back kind (Clone, Drop, PartialEq, Debug, Serialize, Deserialize, system / parallel closure bodies), one panic is injected on a world with multi-column tables, then every reachable value is read, every identifier issued at set-up is resolved through World::entry (it must land on a row of a table holding its own values), and every world is dropped. TLC requires: the panic reaches the caller, no value dropped twice, no drop of a never-created value, no user code on a dropped value, no dropped or corrupt value reachable, allocator protocol intact, worlds droppable. Exhaustive over the enumerated (operation, kind, k) space; seven failing (operation, kind) classes of the pinned tree are recorded in known_findings.json. Design models: spec/MCPanic.tla (per-column loops) and spec/Reshape.tla (row move of Entry::remove: dropping the removed value last is Consistent, dropping it in the middle of the move is a checked counterexample).",
+         "For 24 operations that invoke user code and every position k of every call-back kind (Clone, Drop, PartialEq, Debug, Serialize, Deserialize, system / parallel closure bodies), one panic is injected on a world with multi-column tables, then every reachable value is read, every identifier issued at set-up is resolved through World::entry (it must land on a row of a table holding its own values), and every world is dropped. TLC requires: the panic reaches the caller, no value dropped twice, no drop of a never-created value, no user code on a dropped value, no dropped or corrupt value reachable, allocator protocol intact, worlds droppable. Exhaustive over the enumerated (operation, kind, k) space; nine failing (operation, kind) classes of the pinned tree are recorded in known_findings.json. Design models: spec/MCPanic.tla (per-column loops) and spec/Reshape.tla (row move of Entry::remove: dropping the removed value last is Consistent, dropping it in the middle of the move is a checked counterexample).",
          "One panic per scenario; world shapes fixed; leaks after a panic are accepted.", "6 C17 and 7"),
  "C14": ("translation_validation", "program family enumerated and labelled by TLC from spec/Borrow.tla, compiled by rustc against the current tree; verdicts validated by TLC (TraceBorrow)",
          "643 programs: every pair of view kinds on one component in each position (views/views, views/entry views, entry/entry; the former two, parallel views and System views also with an entity identifier view written first / last / in the middle), sub-views of entry views, resource view pairs, repeated entry queries (World::entry, Entries::entry, two entries), types outside the registry, 11 thread-crossing APIs x 3 payload kinds; each rejecting case has a conflict-free control that must compile (else tool error). The compiler is the implementation; TLC contributes the enumeration, the aliasing / Send / Sync oracle and the comparison. Three accepted programs (two usable results of Entries entry queries) are recorded in known_findings.json.",
